@@ -155,6 +155,8 @@ def encodeToBitmap (qr : QRCode) : Out Image := do
   if qr.level < 0 ∨ qr.level ≥ 4 then Out.err (α := Unit) "microqr: invalid level"
   let format ← formatAt qr.version qr.level
   if format < 0 then Out.err (α := Unit) "microqr: invalid version-level pair"
+  if qr.mask ≠ Gen.Micro.c_maskAuto ∧ (qr.mask < 0 ∨ qr.mask ≥ Gen.Micro.c_maskMax) then
+    Out.err (α := Unit) "microqr: invalid mask"
   let buf ← encodeSegments qr {}
   let w : Int := 8 + 2 * qr.version
   let img ← deref (← imgAt baseList qr.version)
